@@ -164,9 +164,7 @@ def finish(rep: Report) -> int:
         no_input = o.witness is None or not (o.replay or {}).get("confirmed", False)
         violations.append({"what": o.oid, "replay": path, "no_input": no_input})
     for b in rep.bounded:
-        for f in b.failures:
-            if f.get("finding"):
-                continue
+        for f in [x for x in b.failures if not x.get("finding")][:3]:
             payload = {"bounded_stand_in": b.name, "function": b.function, "bound": b.bound, **f}
             path = write_replay(rep.pid, b.name, payload)
             violations.append({"what": b.name, "replay": path, "no_input": False})
